@@ -41,11 +41,11 @@ fn op_j(op: &Op) -> Value {
     }
 }
 
-fn pred_j(p: &Predicate) -> Value {
+pub(crate) fn pred_j(p: &Predicate) -> Value {
     json!({"name": p.name, "terms": p.terms.iter().map(term_j).collect::<Vec<_>>()})
 }
 
-fn scope_j(s: &Scope) -> Value {
+pub(crate) fn scope_j(s: &Scope) -> Value {
     match s {
         Scope::Authority => json!({"authority": true}),
         Scope::Previous => json!({"previous": true}),
@@ -54,7 +54,7 @@ fn scope_j(s: &Scope) -> Value {
     }
 }
 
-fn body_j(preds: &[Predicate], exprs: &[Expression], scopes: &[Scope]) -> Value {
+pub(crate) fn body_j(preds: &[Predicate], exprs: &[Expression], scopes: &[Scope]) -> Value {
     json!({
         "preds": preds.iter().map(pred_j).collect::<Vec<_>>(),
         "exprs": exprs.iter().map(|e| e.ops.iter().map(op_j).collect::<Vec<_>>()).collect::<Vec<_>>(),
